@@ -58,6 +58,27 @@ def split_top(s, sep=","):
     return out
 
 
+def strip_turbofish(path):
+    """remove every `::<...>` generic-argument group (balanced) from a path"""
+    out, i = "", 0
+    while i < len(path):
+        if path.startswith("::<", i):
+            d, j = 0, i + 2
+            while j < len(path):
+                if path[j] == "<":
+                    d += 1
+                elif path[j] == ">" and path[j - 1] not in "-=":
+                    d -= 1
+                    if d == 0:
+                        break
+                j += 1
+            i = j + 1
+        else:
+            out += path[i]
+            i += 1
+    return out
+
+
 def parse_call(t):
     """`[dest = ]callee(args) -> [return: bbN, unwind ...]` or `... -> unwind ...` (diverging).
     The callee path may itself contain parentheses (tuple types), so the argument list is the last
@@ -381,6 +402,18 @@ class ElemRef:
         self.vecref, self.idx = vecref, idx
 
 
+class MapVal:
+    """HashMap with abstract keys: a list of (key token, value) entries; key equality against a probe key is symbolic"""
+    def __init__(self, entries):
+        self.entries = list(entries)
+
+
+class MapElemRef:
+    """`&mut V` returned by HashMap::get_mut"""
+    def __init__(self, mapref, idx):
+        self.mapref, self.idx = mapref, idx
+
+
 class Opaque:
     def __init__(self, what, args=()):
         self.what, self.args = what, list(args)
@@ -625,7 +658,7 @@ class Interp:
         refs = {}
         args2 = []
         for i, a in enumerate(args):
-            if isinstance(a, (MutRef, ElemRef)):
+            if isinstance(a, (MutRef, ElemRef, MapElemRef)):
                 refs[i] = a
                 args2.append(self.deref(a, self.cur_env))
             else:
@@ -723,7 +756,7 @@ class Interp:
         if place.startswith("(*") and place.endswith(")"):
             inner = place[2:-1].strip()
             cur = self._place(fn, inner, env) if not re.match(r"^_\d+$", inner) or inner in env else None
-            if isinstance(cur, (MutRef, ElemRef)):
+            if isinstance(cur, (MutRef, ElemRef, MapElemRef)):
                 self.write_ref(cur, val, env)
             else:
                 self._assign(fn, inner, val, env)     # references modelled by value
@@ -788,6 +821,9 @@ class Interp:
         if isinstance(v, ElemRef):
             vec = self.deref(v.vecref, env)
             return vec.items[v.idx]
+        if isinstance(v, MapElemRef):
+            m = self.deref(v.mapref, env)
+            return m.entries[v.idx][1]
         return v
 
     def write_ref(self, ref, val, env):
@@ -799,6 +835,11 @@ class Interp:
             items = list(vec.items)
             items[ref.idx] = val
             self.write_ref(ref.vecref, VecVal(items), env)
+        elif isinstance(ref, MapElemRef):
+            m = self.deref(ref.mapref, env)
+            entries = list(m.entries)
+            entries[ref.idx] = (entries[ref.idx][0], val)
+            self.write_ref(ref.mapref, MapVal(entries), env)
         else:
             raise Unsupported("store through a non-reference %r" % (ref,))
 
@@ -855,9 +896,14 @@ class Interp:
             v = {"EPSILON": "2.220446049250313e-16", "MAX": "1.7976931348623157e308", "MIN_POSITIVE": "2.2250738585072014e-308"}[m.group(1)]
             return SV("f64", sem.float_const(v, "f64"))
         if re.search(r"promoted\[\d+\]$", c):
-            tail = "::" + "::".join(c.split("::")[-2:])
-            hits = [f for name, fl in self.dump.fns.items() for f in fl
-                    if name.endswith(tail) and name.split("::")[0] == c.split("::")[0]]
+            pm = re.search(r"::(\w+)::promoted\[(\d+)\]$", strip_turbofish(c))
+            hits = []
+            if pm:
+                tail = "::%s::promoted[%s]" % (pm.group(1), pm.group(2))
+                hits = [f for name, fl in self.dump.fns.items() for f in fl if name.endswith(tail)]
+                if len(hits) > 1:
+                    h2 = [f for f in hits if f.name.split("::")[0] == c.split("::")[0]]
+                    hits = h2 or hits
             if len(hits) != 1:
                 raise Unsupported("promoted constant %s: %d candidates" % (c, len(hits)))
             outs = []
